@@ -6,24 +6,24 @@ TRUST = "engine semantics A-PY/A-NP-INDEX (kept honest by the CPython differenti
 CLAIMED = {
  "C17": dict(cat="proof", ref="DESIGN.md 4/C17",
    text="Every clause is a discharged obligation over the real AST of WindowGenerator: loop invariant with ghost yield sequence (cover, overlap, count, termination), "
-        "generator contract used modularly by the valid/splicing/slice/tscale consumers, relational two-iteration obligation for splicing amplitudes; all (ns, nswin, overlap), no bound.",
+        "generator contract used modularly by the valid/splicing/slice/tscale consumers, relational two-iteration obligation for splicing amplitudes; the same windows when another iteration over the same object runs between two yields (window counter havocked at every yield); all (ns, nswin, overlap), no bound.",
    note="Float division/ceil in __init__ and tscale read as real arithmetic (A-REAL, sound below 2^52); Hann complement identity assumed (A-SCIPY; the code asserts it itself). "
         "A native box (bounded, not counted) cross-checks the engine against CPython.",
    tech="AST->z3 VC generation, Hoare loop invariants, generator contracts (deductive)"),
  "C11": dict(cat="proof", ref="DESIGN.md 4/C11",
    text="Reader.open (flat + compressed branch), ns, rl, shape and OnlineReader.ns executed symbolically for every file size, channel count, item size, rate and announced duration: "
-        "memmap fits (no raise), ns == floor(bytes/frame), values are the file prefix, duration matches; the cached size of an online reader may be stale.",
+        "memmap fits (no raise), ns == floor(bytes/frame), values are the file prefix, duration matches; the cached size of an online reader may be stale; compressed branch for both settings of ignore_warnings and any rate in the .ch header; a recording still being acquired (metadata without size / duration fields) opens (arguments of the dropped logging calls are evaluated: F-C11-2 found this way and repaired).",
    note="A-FS (np.memmap semantics), A-REAL (the binary64 round trip ns->fileTimeSecs->ns is only checked natively, bounded), A-MTSCOMP for the stream length.",
    tech="AST->z3 VC generation with a ghost file system (deductive)"),
  "C10": dict(cat="proof", ref="DESIGN.md 4/C10",
    text="split_sync proved for a word array of any length: line k == bit k of the word for k=0..15 (integer div/mod arithmetic, complete over all 65536 words), 1-D and (n,1) inputs; "
         "fronts/rises/falls: soundness, polarity, order and completeness of the returned indices for 1-D and 2-D inputs along either axis; read_sync through the reader: digital layout (imec, nidq) and "
-        "analog lines thresholded per channel after removing that channel's own floor (1 and 2 analog channels).",
+        "analog lines thresholded per channel after removing that channel's own floor (1 and 2 analog sync channels, with 0..2 auxiliary analog channels saved before them); re-checks C09's channel-index / nidq calibration contracts it rests on.",
    note="A-ENDIAN (asserted natively), A-NP-SPEC for unpackbits / where / diff, A-REAL for analog thresholds. Re-writes of split_sync outside the modelled NumPy subset degrade to the exhaustive native check of all 65536 words (bounded tier).",
    tech="AST->z3 VC generation, index-function arrays, where() specification axioms (deductive)"),
  "C01": dict(cat="other", ref="DESIGN.md 4/C01",
    text="Reader.__getitem__/read/read_samples proved equal to NumPy indexing of the whole calibrated, geometry-ordered array for every selector shape (int, any slice incl. negative steps and out-of-range bounds, "
-        "integer arrays) x every file size; raw_channel_order construction in __init__ against geometry_from_meta's contract; sync unscaled; file untouched. Level other: cbin path and dtype of 0-d results rest on the bounded native stand-in over all shipped metas.",
+        "integer arrays) x every file size; raw_channel_order construction in __init__ against geometry_from_meta's contract; sync unscaled; file untouched. The contracts it rests on are re-checked by this check: C09's per-channel volts-per-bit vector (imec and nidq, every MN/MA/XA/DW composition) and C08's geometry order. Level other: cbin path and dtype of 0-d results rest on the bounded native stand-in over all shipped metas.",
    note="A-NP-INDEX, A-REAL (which sample meets which gain; not float32 rounding), A-MTSCOMP. array x array selectors are outside the claim (outer vs point-wise not fixed by the statement). F-C01-1 (bare list index) was repaired.",
    tech="AST->z3 VC generation with abstract selector index functions (deductive) + bounded native stand-in"),
  "C09": dict(cat="other", ref="DESIGN.md 4/C09",
@@ -38,18 +38,18 @@ CLAIMED = {
    tech="AST->z3 VC generation with permutation/where specification axioms (deductive) + exhaustive enumeration of tables"),
  "C16": dict(cat="other", ref="DESIGN.md 4/C16",
    text="saturation() proved for any (nc, ns), scalar or per-channel range, proportion, slew limit, rate and taper width: which mask is averaged over which axis, OR-combination with '>' thresholds, trailing zero of the slew term, "
-        "mute in [0,1], 0 on flagged samples (odd widths), 1 beyond the half-width, mute computed from the flags only, input untouched.",
-   note="np.mean of a boolean column = fraction of channels (A-NP-SPEC), convolve('same') with a non negative kernel and cosine(M) centre tap (A-SCIPY) are assumed contracts exercised natively by the bounded stand-in; A-REAL. F-C16-1 (even widths) was repaired.",
+        "mute in [0,1], 0 on flagged samples (odd widths), 1 beyond the half-width, mute computed from the flags only, input untouched; C09's range_volts contract re-checked.",
+   note="np.mean of a boolean column = fraction of channels (A-NP-SPEC), convolve('same') with a non negative kernel and cosine(M) centre tap (A-SCIPY) are assumed contracts exercised natively by the bounded stand-in; A-REAL (float32 traces against double ranges at the 98 % boundary are decided in exact rationals by the bounded stand-in, as are slew events at block boundaries of long arrays). F-C16-1 (even widths) was repaired.",
    tech="AST->z3 VC generation with reduction/convolution specification axioms (deductive) + bounded native stand-in"),
  "C03": dict(cat="other", ref="DESIGN.md 4/C03",
    text="One symbolic iteration of the real window loop of _process_NP24 (read -> _ind2save -> _split2shanks): the block appended to each shank's AP file is exactly the original int16 samples [a_j,b_j) of that shank's columns + sync, "
-        "for every window index/size, length and shank map; ranges tile [0,ns) (lemma over C17's contract); value exactness under the binary32 rounding model for every volts-per-bit factor; reconstruction loop body scatters every column back.",
-   note="Channel lists (where(shank==s)+sync, partition) are a precondition; metadata, channel-subset strings and end-to-end bytes (all 65536 values x catalogued gains, non-contiguous shank ids) are a bounded stand-in on real files. A-FPSTD for the value obligation.",
+        "for every window index/size, recording length, processed length (init_params(nsamples) <= file length) and shank map; ranges tile [0,ns) (lemma over C17's contract); value exactness under the binary32 rounding model for every volts-per-bit factor; reconstruction loop body scatters every column back.",
+   note="Channel lists (where(shank==s)+sync, partition) are a precondition; metadata, channel-subset strings and end-to-end bytes (all 65536 values x catalogued gains, non-contiguous / interleaved shank maps, nsamples < file length, channel-subset strings through a metadata file) are a bounded stand-in on real files. Re-checks C17's generator contract. A-FPSTD for the value obligation.",
    tech="AST->z3 VC generation, generator contract reuse, standard floating-point error model (deductive) + bounded end-to-end"),
  "C12": dict(cat="other", ref="DESIGN.md 4/C12",
    text="LF half of the same loop iteration: per-window row counts tile [0, ceil(ns/12)), sync column == every 12th AP sync word, data columns == decimated filter output of the cosine-tapered calibrated window (data-flow, filter opaque); "
-        "_writemetadata_lf: 2500 Hz, per-shank channel counts, size, provenance keys, source metadata untouched.",
-   note="Numeric equality with whole-trace low-pass + decimation and window independence (<= 1 LSB) are a bounded stand-in on real files (sosfiltfilt is opaque: A-SCIPY shape only).",
+        "_writemetadata_lf: 2500 Hz, per-shank channel counts, size, provenance keys, source metadata untouched; the LF output of a first or forced run starts empty (NP2.1 and NP2.4 prepare-files contracts, shared with C04); C17's generator contract re-checked.",
+   note="Numeric equality with whole-trace low-pass + decimation and window independence (<= 1 LSB) and forced re-runs over existing LF files / re-used converter objects are a bounded stand-in on real files (sosfiltfilt is opaque: A-SCIPY shape only).",
    tech="AST->z3 VC generation with an opaque-filter summary (deductive) + bounded numeric stand-in"),
  "C06": dict(cat="other", ref="DESIGN.md 4/C06",
    text="One symbolic batch of the real per-worker loop (nested my_function located by name, free variables symbolic): file position before each write, rows == kept range with the documented taper margins, sync columns bit-identical, "
@@ -58,23 +58,23 @@ CLAIMED = {
    tech="AST->z3 VC generation on a nested closure with ghost file positions + arithmetic lemmas (deductive) + bounded native stand-in"),
  "C02": dict(cat="other", ref="DESIGN.md 4/C02",
    text="Ghost-file-system contracts: companion resolution for data / compressed / metadata paths under every combination of existing files; compress_file, decompress_file, decompress_to_scratch with a normal and an exceptional outcome of mtscomp: "
-        "final names only ever carry complete files (also after an earlier failed attempt), sources removed only after their replacement is complete, lossless by D(C(b))=b.",
-   note="mtscomp is external: assumed contract (A-MTSCOMP) validated natively: reader on .bin vs .cbin around chunk boundaries, byte round trip, failures injected at each chunk, fail-then-retry histories (bounded). Known finding F-C02-1 (negative steps on .cbin).",
+        "final names only ever carry complete files (also after an earlier failed attempt), sources removed only after their replacement is complete, lossless by D(C(b))=b; same shape through .bin and .cbin rests on C11's contracts of both branches of Reader.open (re-checked here).",
+   note="mtscomp is external: assumed contract (A-MTSCOMP) validated natively: reader on .bin vs .cbin around chunk boundaries, byte round trip, failures injected at each chunk, fail-then-retry histories, UUID-named companions with both bands of a probe in one folder (bounded). Known finding F-C02-1 (negative steps on .cbin).",
    tech="AST->z3 VC generation over a ghost file system with exceptional post-conditions (deductive) + bounded native stand-in"),
  "C04": dict(cat="other", ref="DESIGN.md 4/C04",
-   text="Contracts of every step of NP2Converter.process over the ghost file system: _prepare_files_NP24 (no-op on repeat, outputs never alias the input, channel lists = where(shank==s)+sync), check_NP24 (every window compared, flag only after the loop), "
+   text="Contracts of every step of NP2Converter.process over the ghost file system: _prepare_files_NP24 (no-op on repeat, outputs never alias the input, channel lists = where(shank==s)+sync), check_NP24 (every window compared, flag only after the loop; the whole function through the interpreter: every exceptional way out leaves check_completed unset), _prepare_files_NP21 (forced / first run starts the LF output empty), "
         "epilogue order (original unlinked only after check_NP24 returned normally with both flags), delete_NP24 guard, compress_NP24/NP21 through C02's compress_file incl. failures, early exits, init_params reset.",
-   note="Histories are handled inductively (one guarded unlink of the original); interruptions = exceptions of external calls; real run histories on files (first/repeat/overwrite/corrupted split/NP2.1/NP1) are a bounded stand-in. Known finding F-C04-1 (partial folders).",
+   note="Histories are handled inductively (one guarded unlink of the original); interruptions = exceptions of external calls; real run histories on files (first/repeat/overwrite/corrupted split/failed verification then delete_NP24()/NP2.1/NP1) are a bounded stand-in. Known finding F-C04-1 (partial folders).",
    tech="AST->z3 VC generation over a ghost file system, effect-log ordering obligations (deductive) + bounded histories"),
  "C13": dict(cat="other", ref="DESIGN.md 4/C13",
    text="extract_wfs_array proved with a loop invariant over the output stack for any number of spikes / channels / samples: wfs[i,c,t] == traces[neighbours[peak_i,c], sample_i - trough + t], padding neighbours read the NaN row, every read in bounds; "
-        "write_wfs_chunk: chunk-local offsets for chunk 0 and later chunks address samples [sample-trough, sample-trough+length) of the recording and rows land at waveform_index, with the caller's trough offset and length.",
-   note="Selection of <= max_wf spikes per unit, agreement of table / traces / channels / templates, chunk- and worker-count independence and the loader are a bounded stand-in on generated recordings (joblib threading back end). A-PANDAS; NaN is a token. F-C13-1 (spike index 0 dropped) was repaired.",
+        "write_wfs_chunk: chunk-local offsets for chunk 0 and later chunks address samples [sample-trough, sample-trough+length) of the recording and rows land at waveform_index, with the caller's trough offset and length; _make_wfs_table (loop iteration + tail, signed and unsigned spike times): each unit gets min(max_wf, #valid) distinct valid spikes, table rows are in bijection with the selected spikes in ascending order, waveform_index is a bijection grouped by unit; make_channel_index: row c = ascending channels within the radius, padded; extract_wfs_cbin: chunks cover every valid spike once, each job gets its own chunk, rows and the caller's window parameters.",
+   note="Agreement of table / traces / channels / templates after the final re-sort, chunk- and worker-count independence end to end and the loader are a bounded stand-in on generated recordings (joblib threading back end). A-PANDAS; NaN is a token; A-NP-SPEC for sort / argsort(stable) / unique / Generator.choice(replace=False) / flatten; squareform(pdist) = symmetric matrix (A-SCIPY). F-C13-1 (spike index 0 dropped) was repaired.",
    tech="AST->z3 VC generation with a stack loop invariant and index-function arrays (deductive) + bounded native stand-in"),
  "C14": dict(cat="other", ref="DESIGN.md 4/C14",
-   text="pick_maximum: reported peak == global absolute extremum, first on ties; find_trough at/after the peak and find_tip strictly before it; recovery_point in bounds with last-sample fall-back; "
+   text="pick_maximum: reported peak == global absolute extremum, first on ties; find_trough at/after the peak and find_tip strictly before it; recovery_point in bounds with last-sample fall-back; arr_pre_post proved (running-sum induction lemma); half_peak_point: the reported points are the nearest samples on either side of the peak that are back within half of it; "
         "lemmas: positive scaling and channel permutation leave the arg-max rule invariant - all for symbolic (n, C, T).",
-   note="A-NP-SPEC argmax / nanargmax / max; arr_pre_post by contract (checked exhaustively natively for T <= 9). Half-peak points, the weak-positive swap, batch independence and slopes: bounded stand-in on generated bi/tri-phasic spikes. Known finding F-C14-2.",
+   note="A-NP-SPEC argmax / nanargmax / max; The weak-positive swap (pandas row surgery), scale equivariance end to end (incl. exact power-of-two scaling), batch independence and slopes: bounded stand-in on generated bi/tri-phasic spikes. Known finding F-C14-2.",
    tech="AST->z3 VC generation with order-statistics specification axioms (deductive) + bounded native stand-in"),
  "C18": dict(cat="other", ref="DESIGN.md 4/C18",
    text="fourier.convolve: inverse transform asked for the padded length, 'same' = centred crop for both parities, 'full' length; ns_optim_fft exhaustive over its table; freduce/fexpand mutually inverse on Hermitian spectra for both parities and any axis; "
@@ -82,7 +82,7 @@ CLAIMED = {
    note="A-FFT (shapes, linearity; contents opaque), A-MATH (three facts about cos). Equality with direct convolution / FFT on the impulse basis is a bounded stand-in. Known finding F-C18-1 (ns_optim above its table); F-C18-3 (3-D, axis 0) was repaired.",
    tech="AST->z3 VC generation with FFT shape/Hermitian specification axioms (deductive) + bounded impulse-basis stand-in"),
  "C05": dict(cat="other", ref="DESIGN.md 4/C05",
-   text="car: exactly one channel-axis reduction with the requested operator is subtracted, per-collection == per-group; kfilt/fk recursion over collections forwards every setting; destripe data-flow: high-pass -> fshift by +sample_shift along time -> interpolation -> "
+   text="car: exactly one channel-axis reduction with the requested operator is subtracted, per-collection == per-group; kfilt/fk recursion over collections forwards every setting; kfilt body: gain control only when a window is given, mirrored padding, padding rows dropped and gain multiplied back; destripe data-flow: high-pass -> fshift by +sample_shift along time -> interpolation -> "
         "spatial filter on rows with label != 3, sync untouched; agc: out*gain == in wherever the returned gain is not zero, data untouched where it is zero, gain >= 0 (stated on the returned values only).",
    note="median/mean are opaque reductions with translation equivariance (A-NP-SPEC); butter/sosfiltfilt/fshift/convolve opaque with shapes (A-SCIPY/A-FFT). 40 dB stripe attenuation / 90 % spike retention are numeric: bounded stand-in on synthetic stripes.",
    tech="AST->z3 VC generation with call-log data-flow obligations and modular recursion contracts (deductive) + bounded numeric stand-in"),
@@ -93,8 +93,8 @@ CLAIMED = {
    tech="AST->z3 VC generation with an FFT call log (deductive, structure) + bounded impulse-basis stand-in (numerics)"),
  "C20": dict(cat="other", ref="DESIGN.md 4/C20",
    text="rolling_window and smooth.lp keep the input length for every length / window / padding (Python's half-to-even round modelled); Venn peeling lemma: per bin, sorter j is counted in exactly c_j levels, so every spike is attributed once; "
-        "stack: row k aggregates exactly the traces carrying the k-th distinct label, with all their samples, only row k is written (one symbolic iteration, np.unique by specification).",
-   note="Cadzow rank reduction, svd_denoise_npx, Savitzky-Golay and the spike-count conservation on real calls are numerics: bounded stand-in (exact frequency-domain plane waves, boundary spikes).",
+        "stack: row k aggregates exactly the traces carrying the k-th distinct label, with all their samples, only row k is written (one symbolic iteration, np.unique by specification); svd_denoise_npx: each collection is decomposed on its own rows at a rank >= its size whenever rank >= nc (and at the requested rank without collections), written back row for row; _svd_denoise cuts nothing off at full rank.",
+   note="Cadzow rank reduction, the SVD identities themselves (A-LINALG: U diag(s) Vh == X), Savitzky-Golay and the spike-count conservation on real calls are numerics: bounded stand-in (exact frequency-domain plane waves, boundary spikes).",
    tech="AST->z3 VC generation with integer rounding lemmas (deductive) + bounded native stand-in"),
  "C15": dict(cat="other", ref="DESIGN.md 4/C15",
    text="One symbolic iteration of interpolate_bad_channels' loop for an arbitrary dead/noisy channel on any geometry: only that row is written; weights are zeroed exactly on dead/noisy channels and below 0.005; sources are good or outside-brain channels with positive weight; "
